@@ -193,6 +193,15 @@ def typed_layer(ctx, n_pkgs, n_streams, max_cuts):
                         pre = stream[:cut]
                         r = gp.py_call({"proto": pname, "fin": "binary", "fout": "binary", "data": pre.hex(), "mode": "copy"})
                         obs = [("python", r["ok"], r["out"], full_lines, r.get("err", ""))]
+                        if cut >= hl:
+                            # the form the documentation shows: `with Reader(stream) as r:` - the error must escape the block
+                            rw = gp.py_call({"proto": pname, "fin": "binary", "fout": "binary", "data": pre.hex(), "mode": "with_read"})
+                            ctx.count("typed_error_kind:python-with", (rw.get("err", "").strip().split(":")[0] or "ok")[:40] if not rw["ok"] else "ACCEPTED")
+                            if rw["ok"]:
+                                ctx.report("typed:python:accepted-truncated:with-block", "a `with Binary%sReader(...) as r:` block that reads every step "
+                                           "finished without an error on a stream cut at byte %d of %d (protocol %s)" % (pname, cut, len(stream), pname),
+                                           {"layer": "typed", "reader": "python, context-manager form", "model": gp.pkg.yaml(), "namespace": gp.pkg.namespace,
+                                            "protocol": pname, "stream_hex": stream.hex(), "cut": cut})
                         if r.get("hang"):
                             ctx.report("typed:python:hang", "python reader neither completed nor reported an error (no answer within the "
                                        "runner's time limit) on a stream cut at byte %d of %d (protocol %s)" % (cut, len(stream), pname),
